@@ -196,10 +196,15 @@ func (y *Yaml) GetMapKeys() ([]string, error) {
 	if err != nil {
 		return nil, err
 	}
+	// keys in document order (ranging over the Go map made the order, and with it the generated
+	// variable names and code, differ from run to run)
 	keys := make([]string, 0)
-	for k := range m {
-		keys = append(keys, k)
-
+	for i := 0; i+1 < len(y.data.Content); i += 2 {
+		k := y.data.Content[i].Value
+		if _, pending := m[k]; pending {
+			keys = append(keys, k)
+			delete(m, k)
+		}
 	}
 	return keys, nil
 }
